@@ -341,20 +341,27 @@ class World:
                 rec = {'node': ni, 'cursor': c, 'kind': 'region', 'paths': ps, 'fps': [M.fingerprint(x) for x in ss],
                        'hfps': [M.fingerprint(x, header_only=True) for x in ss], 'locs': [getattr(x, 'loc', None) for x in ss]}
             else:
-                from fpy2.ast.fpyast import Assign, ReturnStmt, EffectStmt
-                cands = [(p, x) for p, x in stmts if isinstance(x, (Assign, ReturnStmt, EffectStmt))]
+                # any expression of the program, at any depth, including the headers of compound
+                # statements (conditions, iterables, context expressions)
+                from fpy2.transform.cursor import expr_sites
+                cands = expr_sites(f.ast, lambda e: True)
                 if not cands:
                     return
-                sp, s = cands[op['k'] % len(cands)]
-                c = ExprCursor(f.ast, to_repo_stmt(sp).expr('expr'))
-                rec = {'node': ni, 'cursor': c, 'kind': 'expr', 'paths': [sp], 'fps': [M.fingerprint(s)],
-                       'hfps': [M.fingerprint(s, header_only=True)], 'locs': [getattr(s, 'loc', None)],
-                       'efp': M.fingerprint(c.resolve())}
+                c = cands[op['k'] % len(cands)]
+                rec = self.expr_record(ni, c)
         except Exception as e:
             self.vio('take-valid-path-rejected', {'path': sp, 'kind': kind, 'exc': f'{type(e).__name__}: {e}'})
             return
         self.cursors.append(rec)
         self.stats.count('ops', 'take:' + kind)
+
+    def expr_record(self, ni: int, c) -> dict:
+        f = self.nodes[ni]['fn']
+        sp = cursor_pos(c)[1]
+        st = M.resolve(f.ast, sp)
+        return {'node': ni, 'cursor': c, 'kind': 'expr', 'paths': [sp], 'fps': [M.fingerprint(st)],
+                'hfps': [M.fingerprint(st, header_only=True)], 'locs': [getattr(st, 'loc', None)],
+                'efp': M.fingerprint(c.resolve())}
 
     def model_image(self, rec, target: int):
         """
@@ -427,11 +434,13 @@ class World:
             self.vio('forward-does-not-resolve', {'exc': f'{type(e).__name__}: {e}'}, where_kind=how)
             return res
         if rec['kind'] == 'expr':
+            # an expression cursor that resolves must name the same expression (structurally), in the
+            # statement the model says its statement became -- whatever else changed around it
             (pos, exact, verbatim), = model
-            ok = pos[0] == 'path' and verbatim and rp[0] == 'expr' and M.fingerprint(resolved) == rec['efp'] \
-                and (not exact or rp[1] == pos[1])
+            ok = rp[0] == 'expr' and M.fingerprint(resolved) == rec['efp'] \
+                and (pos[0] != 'path' or not exact or rp[1] == pos[1])
             if not ok:
-                self.vio('forward-expr-unrelated', {'model': repr(pos), 'result': repr(rp)}, where_kind=how)
+                self.vio('forward-expr-unrelated', {'model': repr(pos), 'result': repr(rp), 'got': _fmt(resolved)}, where_kind=how)
             return res
         if rp[0] == 'expr':
             self.vio('forward-kind-changed', {'result': repr(rp)}, where_kind=how)
@@ -549,6 +558,13 @@ class World:
             return
         k = len(sites)
         wk = op['where'][0]
+        if name in EXPR_SITED and len(self.cursors) < 40:
+            # the sites a listing hands out are cursors like any other: they must forward sensibly too
+            for c in sites[:3]:
+                try:
+                    self.cursors.append(self.expr_record(ni, c))
+                except Exception:
+                    pass
         self.stats.count('ops', f'apply:{wk}')
         self.stats.add('distinct', f'{name}|{wk}|k={min(k, 3)}|{self.hist["root"]}')
         self.stats.count('roots', 'generated' if self.hist['root'].startswith('gen:') else 'corpus')
